@@ -84,6 +84,14 @@ def fn_return(f: FuncInfo) -> Tuple[Optional[ast.expr], List[str]]:
     if isinstance(st, ast.Assign) and len(st.targets) == 1 and isinstance(
         st.targets[0], ast.Name):
       env[st.targets[0].id] = _subst(st.value, env)
+    elif isinstance(st, ast.Assign) and len(st.targets) == 1 and isinstance(
+        st.targets[0], ast.Tuple) and isinstance(st.value, ast.Tuple) and len(
+            st.targets[0].elts) == len(st.value.elts) and all(
+                isinstance(t_, ast.Name) for t_ in st.targets[0].elts):
+      # a, b = x, y
+      vals_ = [_subst(v_, env) for v_ in st.value.elts]
+      for t_, v_ in zip(st.targets[0].elts, vals_):
+        env[t_.id] = v_
     elif isinstance(st, ast.Return):
       ret = _subst(st.value, env) if st.value is not None else None
     else:
@@ -445,10 +453,17 @@ def run(ctx: Ctx, rs: RuleSet, tier: str):
     vals_ok = v[0] == 'VALUES' and 'ordered_arguments' in v[1]
     md = fr.elts[1]
     if isinstance(md, ast.Call):
-      an = kwarg(md, 'argument_names')
+      an = kwarg(md, 'argument_names') or (ctx.bound_args(md, ff) or {}).get(
+          'argument_names')
       if an is not None:
         s = seq(an, fparams[0])
         names_ok = s[0] == 'KEYS' and 'ordered_arguments' in s[1]
+        # tuple(<dict>) enumerates its keys
+        if not names_ok and isinstance(an, ast.Call) and isinstance(
+            an.func, ast.Name) and an.func.id in ('tuple', 'list') and len(
+                an.args) == 1 and isinstance(an.args[0], ast.Call) and unparse(
+                    an.args[0].func).split('.')[-1] == 'ordered_arguments':
+          names_ok = True
   pr, pparams = fn_return(pf)
   s = seq(pr, pparams[0]) if pr is not None else ('?',)
   pe_ok = (s[0] == 'MAP' and s[1] == 'attr_or_index' and s[2][0] == 'KEYS' and
